@@ -442,6 +442,9 @@ def model_task(task, ybin, root, prop):
                 bt_, bn_ = pr_.choice([("uint8", 70000), ("float32", 17000), ("float64", 8200), ("int8", 65537), ("bool", 66000)])
                 protos0[0].steps.append(("steerbigfixed", M.Vec(M.Prim(bt_), bn_), pr_.chance(0.3)))
                 protos0[0].steps.append(("steerinstants", M.Prim("datetime"), True))
+                # arrays whose elements are vectors or strings: NumPy holds them as objects, and what a reader hands out
+                # for one (an array per vector) has to be writable again by the relaying node
+                protos0[0].steps.append(("steerarrvec", M.Arr(M.Vec(M.Prim(pr_.choice(["int16", "float32", "uint8"]))), pr_.choice([None, 1])), pr_.chance(0.5)))
                 protos0[0].steps.append(("steerclock", M.Prim("time"), True))
             # arrays of the widest integers, filled (below) with single high bits: the values at which a varint gets one byte longer
             protos0[0].steps.append(("steerarru64", M.Arr(M.Prim(pr_.choice(["uint64", "uint64", "size"])), pr_.choice([None, 1, 2])), pr_.chance(0.3)))
